@@ -273,6 +273,7 @@ func main() {
 					if len(tampered) < 4096 {
 						judgeSrc(part, id+".onebyte", tampered, desc+" [source: one byte per Read]", 2)
 					}
+					judgeSrc(part, id+".dataerr", tampered, desc+" [source: final data delivered together with io.EOF]", 3)
 				}
 			}
 			judgeSrc = func(part, id string, tampered []byte, desc string, src int) {
@@ -283,6 +284,8 @@ func main() {
 					rd = bufio.NewReaderSize(rd, 4096)
 				case 2:
 					rd = iotest.OneByteReader(rd)
+				case 3:
+					rd = iotest.DataErrReader(rd)
 				}
 				res := lab.Decrypt(rd, false, 0, x.Id)
 				c.Outcome(res.Class())
